@@ -523,6 +523,14 @@ class ProjectData(sc.prettyobj):
                             if obj_type == "pars" and spec["timed"] == "y" and ts.has_time_data:
                                 raise InvalidDatabook("%s. Parameter %s (%s) is marked as a timed transition in the Framework, so it must have a constant value (i.e., the databook cannot contain time-dependent values for this parameter)" % (location, tdve.name, name))
 
+        try:
+            self._validate_transfers_and_interactions(framework)
+        except AssertionError as e:
+            raise InvalidDatabook(str(e)) from e
+        return True
+
+    def _validate_transfers_and_interactions(self, framework) -> None:
+        # Check the population types, populations, values and units of transfers and interactions (raises AssertionError)
         for tdc in self.interpops + self.transfers:
             if tdc.from_pop_type is None:  # Supply default pop type
                 tdc.from_pop_type = self._pop_types[0]
@@ -553,7 +561,6 @@ class ProjectData(sc.prettyobj):
                 assert self.pops[from_pop]["type"] == tdc.from_pop_type, 'Transfer "%s" has population type "%s", but contains Population "%s", which is type "%s"' % (tdc.full_name, tdc.from_pop_type, from_pop, self.pops[from_pop]["type"])
                 assert ts.has_data, "Data values missing for transfer %s, %s->%s" % (tdc.full_name, to_pop, from_pop)
                 assert ts.units is not None, "Units are missing for transfer %s, %s->%s" % (tdc.full_name, to_pop, from_pop)
-        return True
 
     def to_workbook(self) -> tuple:
         """
